@@ -148,8 +148,10 @@ PROPS = {
                     "reference evaluator of the order stream (harness, independent of the model)"],
         "assumptions": ["fragment F0; `go` calls are outside the fragment (the argument evaluation of go goes through the same makeCallArgs / fast path code)",
                         "channel send `a <- b` (evaluates b first) is not in the property's list"],
-        "partial": ["the theorems are the defining equations of each form (one evalExpr call per operand, in order, cut at the first error); "
-                    "'never twice' along whole runs is established by the correspondence of traces, not by a global theorem",
+        "partial": ["besides the defining equations of each form (one evalExpr call per operand, in order, cut at the first error) there is a WHOLE-EXPRESSION theorem "
+                    "(Proofs/EvalProbe.lean: probe_tree_trace / strict_tree_evaluates_every_leaf_once / ternary_runs_only_the_chosen_branch) for probe-leaf trees of any depth "
+                    "over + - unary- [a,b][1] ?: ; for the other forms (calls with their four argument shapes, map literals, slices ...) 'never twice' along whole runs is "
+                    "established by the per-form equations plus the correspondence of traces",
                     "x op= e / x++ evaluate the operands of x twice by construction of the parser (documented exception)"],
     },
     "C09": {
@@ -390,7 +392,8 @@ MANIFEST_TEXT = {
                 "lists of literals / returns / multi-assignment / fast-path calls, fixed and variadic argument lists incl. conversion for Go "
                 "parameters, binary operators, index, map literal: head first, then the tail in the state the head left, an error cuts the "
                 "rest) and every lazy form (&& || ?: ??), and that a call rejected for its argument count - or a callee without parameters "
-                "- evaluates no argument at all. Correspondence: thousands of probe-leaf expression trees over all call shapes through "
+                "- evaluates no argument at all; and, for expression trees of ANY depth with probe leaves over + - unary- [a,b][1] ?: (induction on the tree): the "
+                "trace is exactly the selected leaves in source order, each once, the skipped branch of ?: contributes nothing, nothing else of the state changes. Correspondence: thousands of probe-leaf expression trees over all call shapes through "
                 "model and interpreter (trace compared); oracle: independent reference evaluator predicting the probe order.",
         "note": "Trusted: Lean kernel; fidelity of the interpreter model (differential, 0 disagreements required); harness reference evaluator.",
         "technique": "Lean 4 proof (defining equations of the evaluator) + differential trace correspondence",
